@@ -20,6 +20,12 @@ def parseAct : List String → Option (List Ev)
   | ["settings", mfs, iw] => do pure [.settings (← parseOptInt mfs) (← parseOptInt iw)]
   | ["wu", sid, inc] => do pure [.wu (← parseNat sid) (← parseNat inc)]
   | ["hdr", sid] => do pure [.sopen (← parseNat sid)]          -- server rig: the scripted client opens a stream
+  | ["hdr", sid, dep, w, ex] => do                             -- ... with RFC 7540 priority (no flow-control meaning)
+      let _ ← parseNat dep; let _ ← parseNat w; let _ ← parseBool ex
+      pure [.sopen (← parseNat sid)]
+  | ["prio", sid, dep, w, ex] => do                            -- PRIORITY frame: no wire event for the monitor
+      let _ ← parseNat sid; let _ ← parseNat dep; let _ ← parseNat w; let _ ← parseBool ex
+      pure []
   | ["prst", sid] => do pure [.sclose (← parseNat sid)]        -- the scripted peer resets a stream
   -- application-side steps: no wire event of their own
   | ["write", sid, n, k] => do let _ ← parseNat sid; let _ ← parseNat n; let _ ← parseNat k; pure []
@@ -69,7 +75,7 @@ def step (st : St) (line : String) : St × String :=
   match at_, st with
   | ["begin"], _ => (none, "ok")
   | ["reset", r], none =>
-    if ["default", "rr", "p9218", "client"].contains r then
+    if ["default", "rr", "p9218", "p7540", "p7540t", "client"].contains r then
       match collect ot with
       | some b =>
         match Mon.init.run b with
